@@ -1833,7 +1833,7 @@ pub fn check(check: &mut Check) {
     // a scenario that failed before is re-executed by vcore (shrinking, final confirmation): the forced
     // interleaving still depends on B getting scheduled inside A's pause, so a passing re-run is repeated
     if r.is_ok() && failing.lock().unwrap().contains(&h) {
-      for _ in 0..5 {
+      for _ in 0..20 {
         r = execute(s);
         if r.is_err() {
           break;
